@@ -29,7 +29,7 @@ def pool():
         datetime.datetime(2021, 3, 14, 3, 30), datetime.datetime(1999, 12, 31, 12, tzinfo=TZ(datetime.timedelta(hours=5, minutes=30))),
         datetime.date(1970, 1, 1), datetime.datetime(2020, 1, 1, 0, 0, 0, 5500),
         [], [1], [1.0, 'a'], [[1]], [None], [0], [1, 2], [1, 2.5], [2], [1, 3], [1, 2, 3], [3, 0, 0], [[2], 1], [[1, 5]], [True], ['a', 'b'], ['b'],
-        {}, {'a': 1}, {'a': 1.0, 'b': [1]}, {'b': 1}, {'a': None}, {'a': True}, {'a': False}, {'a': 0}, {'a': [2]}, {'a': [1, 3]}, {'a': 2, 'b': 0}, {'b': 1, 'a': 2}, {'b': 2, 'a': 1},
+        {}, {'a': 1}, {'a': 1.0, 'b': [1]}, {'b': 1}, {'a': None}, {'a': True}, {'a': False}, {'a': 0}, {'a': [2]}, {'a': [1, 3]}, {'a': 2, 'b': 0}, {'b': 1, 'a': 2}, {'b': 2, 'a': 1}, {'a': 2}, {'a': 1, 'b': 0}, {'a': 1, 'c': 0}, {'b': 0, 'c': 5},
         f1, f2, re.compile('a'), re.compile('b'),
     ]
 
@@ -346,6 +346,31 @@ def run_alias(spec, acc, api):
                 pass
             except Exception as exc:  # pylint: disable=broad-except
                 acc.violation('alias-script-mode-host-exception', f'{alias}: {exc!r}', {'alias': alias})
+            # ... wherever the call stands in the tree: in a SELECTED if() branch, an operand, a call argument, a group, a unary operand
+            if j < 3:
+                wraps = [{'function': {'name': 'if', 'args': [{'variable': 'true'}, expr, {'number': 0}]}},
+                         {'function': {'name': 'if', 'args': [{'variable': 'false'}, {'number': 0}, expr]}},
+                         {'binary': {'op': '||', 'left': {'variable': 'false'}, 'right': expr}}, {'group': expr}, {'unary': {'op': '!', 'expr': expr}},
+                         {'function': {'name': 'if', 'args': [expr, {'number': 1}, {'number': 0}]}}, {'function': {'name': 'arrayNew', 'args': [expr]}}]
+                for w in wraps:
+                    acc.count('script_mode_nested_alias_calls')
+                    try:
+                        got = evaluate_expression(w, {'globals': {**g, 'arrayNew': lambda a, o: list(a)}}, None, False)
+                        acc.violation('alias-visible-in-script-mode', f'{alias} inside {json.dumps(w)[:200]} gave {got!r:.100}', {'alias': alias})
+                        break
+                    except rt_err:
+                        pass
+                    except Exception as exc:  # pylint: disable=broad-except
+                        acc.violation('alias-script-mode-host-exception', f'{alias}: {exc!r}', {'alias': alias})
+                        break
+                if alias not in NONDET and real[0] != 'host-exception':
+                    # expression mode: the call has the same value inside a selected if() branch as alone
+                    try:
+                        got = ('ok', evaluate_expression(wraps[0], {'globals': dict(g)}, None, True))
+                    except rt_err as exc:
+                        got = ('rterr', str(exc))
+                    if got[0] != real[0] or (real[0] == 'ok' and not same_value(got[1], real[1])):
+                        acc.violation('value-depends-on-position-in-if', f'if(true, {alias}(...), 0) = {got!r:.200}, the call alone = {real!r:.200}', {'alias': alias, 'args': refval.enc(args)})
             # a global, and a local, of the same name win over the built-in
             if j < 4:
                 mark_g = lambda a, o: 'global-wins'  # noqa: E731
